@@ -1,9 +1,9 @@
 SPECIFICATION Spec
-CONSTANT Input <- MCInput2
-CONSTANT Cuts <- MCCuts2
-CONSTANT WSet = {0, 2}
+CONSTANT Input <- MCInput5
+CONSTANT Cuts <- MCCuts5
+CONSTANT WSet = {0, 1}
 CONSTANT CfgSet <- MCCfgSetQ
-CONSTANT Skew = 2
+CONSTANT Skew = 1
 CONSTANT SecMs = 2
 CONSTANT TMax = 3
 CONSTANT DMutant = "print_first_only"
